@@ -127,3 +127,12 @@ class same_class:
         if g.cls is None:
             return g.mod == r.mod
         return False
+
+
+def anchor_attrs(ctx, cls_name, *attrs):
+    """The state attributes a rule is anchored on must exist (be assigned somewhere in the class); a renamed anchor is an
+    analysis error (exit 2), never a verdict."""
+    for a in attrs:
+        ws = [1 for g, n, kind in index(ctx.repo).writers(a) if g.cls is not None and cls_name in g.cls.base_names()]
+        if not ws:
+            raise AnalysisError(f"anchor vanished: {cls_name}.{a} is never assigned (state attribute renamed or removed?)")
